@@ -23,7 +23,7 @@ impl Check for C10 {
     fn cases(&self, tier: Tier) -> u64 {
         match tier {
             Tier::Quick => 100_000,
-            Tier::Thorough => 1_000_000,
+            Tier::Thorough => 2_000_000,
         }
     }
     fn langs(&self) -> Vec<&'static str> {
